@@ -455,7 +455,10 @@ Produce(fr) ==
          IF fr.sub = "inv" THEN Ret(IF TruthSt(fr.f, ost[fr.o]) THEN 1 ELSE 0)
          ELSE Ret(IF TruthArg(fr.f, fr.a) THEN 1 ELSE 0)
     [] fr.u = "errf" -> Ret(IF CON(fr.f).err = "factory" THEN 1 ELSE 0)
-    [] fr.u = "cap"  -> IF SNP(fr.f).rv = "coro" /\ ~FN(fr.g).async THEN Ret(2) ELSE Ret(SNP(fr.f).val)
+    [] fr.u = "cap"  -> IF SNP(fr.f).rv = "coro" /\ ~FN(fr.g).async THEN Ret(2)
+                        \* (byarg: the captured value depends on the argument of the call, so that the captures of
+                        \*  overlapping calls of the same callable can be told apart)
+                        ELSE Ret(SNP(fr.f).val + (IF "byarg" \in DOMAIN SNP(fr.f) /\ SNP(fr.f).byarg = 1 THEN fr.a ELSE 0))
     [] fr.u = "drv"  -> Ret(0)
 
 UsrStep(t) ==
